@@ -247,7 +247,7 @@ Section Total.
   Proof.
     intros [ND HD HL HT]. apply forallb_forall. intros [c|] Hin; [|reflexivity].
     apply In_nth_error in Hin as [n Hn]. destruct (HL _ _ Hn) as [Hi Hd]. simpl.
-    rewrite (in_assoc _ _ _ ND Hd), Hi, Z.eqb_refl, str_eqb_refl. reflexivity.
+    rewrite (in_assoc _ _ _ ND Hd). apply Z.eqb_refl.
   Qed.
 
   Lemma index_sync_coherent (r : rec payload) ln : Coherent r ->
